@@ -68,6 +68,15 @@ class Facts:
         k = atom[0]
         if k == "ok":
             (self.ok if val else self.notok).add(atom[1])
+            from .symex import chunk_width
+            n = chunk_width(atom[1])
+            if n is not None and isinstance(val, bool):
+                # split_first_chunk::<N>(s) is Some exactly when N <= len(s)
+                L = ("len", atom[1][2][0])
+                if val:
+                    self._add("<=", mk_const("usize", n), L)
+                else:
+                    self._add("<", L, mk_const("usize", n))
             return
         if k != "b" or not isinstance(val, bool):
             if k == "v" and isinstance(val, tuple):
